@@ -36,8 +36,12 @@ def inside(v, rng):
     return rng is None or rng[0] <= v <= rng[1]
 
 
+AXES_TOL = {"v": Fraction(0)}   # slack of the axes test: 0 on the grid streams; the tracer stream prints off-grid doubles
+
+
 def oracle(lines, recs, im):
     out = []
+    slack = AXES_TOL["v"]
     axes_b, num = None, {}
     pos = {"X": None, "Y": None, "Z": None}
     rel = False
@@ -59,7 +63,7 @@ def oracle(lines, recs, im):
                         tgt[a] = (pos[a] or 0) + words[a] if (rel and "G92" not in cs) else words[a]
                 if axes_b:
                     for j, a in enumerate("XYZ"):
-                        if tgt[a] is not None and not (axes_b[0][j] <= tgt[a] <= axes_b[1][j]):
+                        if tgt[a] is not None and not (axes_b[0][j] - slack <= tgt[a] <= axes_b[1][j] + slack):
                             out.append((i, f"`{s}` targets {a}={tgt[a]} outside [{axes_b[0][j]}, {axes_b[1][j]}]", "axes"))
                 if cs & {"G38.2", "G38.3", "G38.4", "G38.5"}:
                     for a in "XYZ":
@@ -123,12 +127,67 @@ def histories(R, n):
     return hs
 
 
+def spelled(R, hs):
+    """the same histories with the numbers handed over as numpy scalars and / or the parameter names in lower case"""
+    out = []
+    for h in hs:
+        c = R.rng.choice(["np=1", "lower=1", "lower=1 np=1"])
+        out.append(["cfg " + c] + h)
+    return out
+
+
+def trace_histories(R, n):
+    """interpolated paths inside an axes box that some of their intermediate segments leave (the end points may well be
+    inside): every segment the tracer issues is a `move` of its own and must be refused at the first vertex outside"""
+    from .builder_impl import show
+    hs = []
+    for _ in range(n):
+        r = R.rng
+        lo = [Fraction(r.randint(-8, 0)) for _ in range(3)]
+        hi = [l + Fraction(r.randint(6, 14)) for l in lo]
+        h = ["boundsaxes " + " ".join(show(v) for v in lo + hi)]
+        start = [Fraction(r.randint(int(l) * 4, int(u) * 4), 4) for l, u in zip(lo, hi)]
+        h.append("setaxis " + " ".join(f"{a}={show(v)}" for a, v in zip("xyz", start)))
+        if r.random() < 0.4:
+            h.append("dist rel")
+        h.append("res " + show(Fraction(r.choice([8, 16, 32]), 32)))
+        if r.random() < 0.3:
+            h.append("dir ccw")
+        for _ in range(r.randint(1, 2)):
+            k = r.choice(["arc", "arc", "circle", "polyline", "spline", "helix", "arc_radius", "spiral"])
+            rel = "dist rel" in h
+            def tgt(j, span=6):
+                v = Fraction(r.randint(-span * 2, span * 2), 2)
+                return show(v if rel else start[j] + v)
+            if k == "arc":
+                c = r.randint(2, 7)   # half circle about the point c to the right: peaks c above / below the chord
+                h.append(f"trace arc {show((0 if rel else start[0]) + 2 * c)} {show(0 if rel else start[1])} {c} 0")
+            elif k == "circle":
+                h.append(f"trace circle {r.randint(1, 6)} {r.randint(-6, 6)}")
+            elif k == "polyline":
+                h.append("trace polyline " + " ".join(";".join(tgt(j) for j in range(3)) for _ in range(r.randint(1, 4))))
+            elif k == "spline":
+                h.append("trace spline " + " ".join(";".join(tgt(j) for j in range(3)) for _ in range(r.randint(2, 4))))
+            elif k == "helix":
+                h.append(f"trace helix {tgt(0, 3)} {tgt(1, 3)} {tgt(2, 3)} {r.randint(1, 4)} {r.randint(-3, 3)} {r.randint(1, 2)}")
+            elif k == "spiral":
+                h.append(f"trace spiral {tgt(0, 4)} {tgt(1, 4)} {tgt(2, 2)} {r.randint(1, 2)}")
+            else:
+                h.append(f"trace arc_radius {tgt(0, 3)} {tgt(1, 3)} {r.choice([-1, 1]) * r.randint(7, 12)}")
+            h.append("move " + " ".join(f"{a}={show(v)}" for a, v in zip("xyz", start)) if not rel else "moveabs " +
+                     " ".join(f"{a}={show(v)}" for a, v in zip("xyz", start)))
+        hs.append(h)
+    return hs
+
+
 def run(R: core.Run):
     R.rule = ("random bound configurations (any subset of the seven properties, min<max on the grid) followed by histories biased to "
               "values at min, max, one grid step outside/inside, NaN, +-inf, in both distance modes and with positions made partly "
               "unknown by home/probe; non-trivial = bounds configured and at least two emitting calls; distinct by hash")
     R.assumptions = ["exact arithmetic on the dyadic grid; 'min-ulp/max+ulp' are sampled as one grid step (1/32) outside",
-                     "bounds are finite numbers", "identity transform (transforms: C04)"]
+                     "bounds are finite numbers", "identity transform (transforms: C04)",
+                     "parameter names are case-insensitive by contract: the model sees them in upper case whatever the call spelled",
+                     "numpy float64 scalars denote the same numbers as Python floats (the model has one kind of number)"]
     nt = lambda lines, recs: any(l.startswith("bounds") for l in lines) and sum(1 for r in recs if "stmts=-" not in r) >= 2
     corpus = [["boundsaxes 0 0 0 20 20 20", "probe towards x=1000", "probe towards x=20", "move x=20 y=20 z=20", "dist rel", "move x=1/32"],
               ["bounds bed-temperature 0 120", "halt wait-for-bed S:50 R:500", "halt wait-for-bed S:50 R:120", "bed 120", "bed 3841/32"],
@@ -136,9 +195,22 @@ def run(R: core.Run):
               ["boundsaxes -10 -10 -10 10 10 10", "move x=1000", "dist rel", "move x=-995", "setaxis x=11", "home", "move x=5"]]
     bc.correspond(R, corpus, KEYS, True, "corpus", oracle, nt)
     bc.correspond(R, histories(R, R.n(1500, 20000)), KEYS, True, "random", oracle, nt)
+    corpus2 = [["cfg lower=1", "bounds hotend-temperature 150 250", "halt wait-for-hotend S:200 R:300", "halt wait-for-hotend R:300 S:200",
+                "halt wait-for-hotend S:200 R:250"],
+               ["cfg np=1", "boundsaxes 0 0 0 10 8 10", "setaxis x=0 y=5 z=0", "move x=5 y=9", "move x=5 y=8 F:100", "bounds feed-rate 10 50",
+                "move x=6 F:51", "feed 51", "feed 50"]]
+    bc.correspond(R, corpus2, KEYS, True, "corpus-spelling", oracle, nt)
+    bc.correspond(R, spelled(R, histories(R, R.n(400, 6000))), KEYS, True, "numpy-scalars/lower-case-names", oracle, nt)
+    AXES_TOL["v"] = Fraction(1, 1000)
+    try:
+        done = bc.correspond(R, trace_histories(R, R.n(120, 3000)), KEYS, False, "tracer-in-a-box", oracle, nt)
+        for lines, recs in done:
+            R.count("tracer-in-a-box:" + ("some-segment-refused" if any("out=ValueError" in x for x in recs) else "all-inside"))
+    finally:
+        AXES_TOL["v"] = Fraction(0)
     if R.broken:
         R.search_batches += 1
-        for h in histories(R, R.n(1500, 5000)):
+        for h in histories(R, R.n(1200, 4000)) + spelled(R, histories(R, R.n(300, 1000))):
             lines, recs, im = bc.run_impl(h)
             R.evaluations += 1
             for step, msg, tag in oracle(lines, recs, im):
